@@ -6,9 +6,10 @@
                  regular file with its size or a directory (os.scandir lists both, os.path.isfile tells them apart)
      db        : the rows (blob_hash, status) of the `blob` table
      completed : BlobManager.completed_blob_hashes          (what is announced and served)
-     cache     : BlobManager.blobs  -- hash -> the `verified` flag of the cached BlobFile object
+     cache     : BlobManager.blobs  -- hash -> (is the cached object a BlobFile (true) or a BlobBuffer (false),
+                 its `verified` flag)
      alive     : false after a simulated process death (memory is gone until the next restart)
-   config.save_blobs = True (the default) throughout. *)
+     save      : config.save_blobs (default True); fixed while a process lives, chosen again at every restart *)
 From Coq Require Import NArith List Bool.
 From Coq.Strings Require Import Byte.
 From LV Require Import Lib.Bytes.
@@ -92,29 +93,33 @@ Definition sync_missing (db : db_t) (files : list name) : db_t * list name :=
    filter (is_finished db) files).
 
 (* ---------- state ---------- *)
+Definition centry := (bool * bool)%type.       (* (BlobFile?, verified) *)
+Definition cache_t := list (name * centry).
+
 Record state := mkState {
   disk : disk_t;
   db : db_t;
   completed : list name;
-  cache : list (name * bool);
-  alive : bool }.
+  cache : cache_t;
+  alive : bool;
+  save : bool }.
 
-Definition init : state := mkState [] [] [] [] true.
+Definition init : state := mkState [] [] [] [] true true.
 
 (* BlobManager.is_blob_verified(h) for a valid h (length None) *)
-Definition is_blob_verified (d : disk_t) (c : list (name * bool)) (h : name) : bool :=
-  is_file d h && match lookup c h with Some v => v | None => true end.
+Definition is_blob_verified (d : disk_t) (c : cache_t) (h : name) : bool :=
+  is_file d h && match lookup c h with Some e => snd e | None => true end.
 
 (* BlobManager.ensure_completed_blobs_status(hs): for every h that is_blob_verified: get_blob(h) (which caches a
    verified BlobFile when h was not cached) and add_blobs(h, finished=True).  Batching by 500 is not observable. *)
-Fixpoint ensure_completed (d : disk_t) (hs : list name) (db : db_t) (c : list (name * bool))
-  : db_t * list (name * bool) :=
+Fixpoint ensure_completed (d : disk_t) (hs : list name) (db : db_t) (c : cache_t)
+  : db_t * cache_t :=
   match hs with
   | [] => (db, c)
   | h :: r =>
       if is_blob_verified d c h
       then ensure_completed d r (db_add db h true)
-             (match lookup c h with Some _ => c | None => set_key c h true end)
+             (match lookup c h with Some _ => c | None => set_key c h (true, true) end)
       else ensure_completed d r db c
   end.
 
@@ -125,30 +130,36 @@ Definition setup (s : state) : state :=
   let completed1 := fold_left (fun acc h => set_add h acc) to_add (completed s) in
   let rest := filter (fun f => negb (mem f to_add)) files in
   let (db2, cache2) := ensure_completed (disk s) rest db1 (cache s) in
-  mkState (disk s) db2 completed1 cache2 true.
+  mkState (disk s) db2 completed1 cache2 true (save s).
 
 (* the process is gone: everything in memory is lost, disk and database stay *)
-Definition wipe (s : state) (al : bool) : state := mkState (disk s) (db s) [] [] al.
+Definition wipe (s : state) (al : bool) : state := mkState (disk s) (db s) [] [] al (save s).
 
 (* a (re)start of the blob manager: fresh BlobManager (or stop() on the old one), then setup() *)
 Definition restart (s : state) : state := setup (wipe s true).
+(* the same with config.save_blobs set to b for the new process *)
+Definition restart_with (s : state) (b : bool) : state :=
+  restart (mkState (disk s) (db s) (completed s) (cache s) (alive s) b).
 
 (* ---------- operations between restarts ---------- *)
 Inductive result := RDone | RHave | RBusy | RInvalid | RNoLength | RDead | RPrecondition.
 
-(* BlobManager.get_blob(h, length) for a valid h: returns (disk', verified flag of the returned object, cache').
-   A cache miss builds BlobFile(h, length): an existing file whose size differs from a given non-zero length is
-   DELETED (BlobFile.__init__ -> self.delete()); otherwise an existing file makes the object verified. *)
-Definition get_blob (d : disk_t) (c : list (name * bool)) (h : name) (len : N)
-  : disk_t * bool * list (name * bool) :=
+(* BlobManager.get_blob(h, length) for a valid h: returns (disk', the returned object (BlobFile?, verified), cache').
+   A cache miss builds, through _get_blob, a BlobFile when config.save_blobs or the file exists, else a BlobBuffer.
+   BlobFile(h, length): an existing file whose size differs from a given non-zero length is DELETED
+   (BlobFile.__init__ -> self.delete()); otherwise an existing file makes the object verified.
+   (The cached-BlobBuffer-while-save_blobs branch of get_blob needs the setting to change inside one process
+   lifetime and is not modelled.) *)
+Definition get_blob (sv : bool) (d : disk_t) (c : cache_t) (h : name) (len : N)
+  : disk_t * centry * cache_t :=
   match lookup c h with
-  | Some v => (d, v, c)
+  | Some e => (d, e, c)
   | None =>
       match lookup d h with
       | Some (EFile sz) =>
-          if (len =? 0) || (len =? sz) then (d, true, set_key c h true)
-          else (remove_key d h, false, set_key c h false)
-      | _ => (d, false, set_key c h false)
+          if (len =? 0) || (len =? sz) then (d, (true, true), set_key c h (true, true))
+          else (remove_key d h, (true, false), set_key c h (true, false))
+      | _ => (d, (sv, false), set_key c h (sv, false))
       end
   end.
 
@@ -158,7 +169,10 @@ Definition write_file (d : disk_t) (h : name) (sz : N) : disk_t :=
 
 (* BlobManager.blob_completed(blob) for a BlobFile, including the storage.add_blobs task it schedules *)
 Definition blob_completed (s : state) (h : name) : state :=
-  mkState (disk s) (db_add (db s) h true) (set_add h (completed s)) (cache s) (alive s).
+  mkState (disk s) (db_add (db s) h true) (set_add h (completed s)) (cache s) (alive s) (save s).
+(* ... and for a BlobBuffer: add_blobs(..., finished=False), nothing is reported as completed *)
+Definition buffer_completed (s : state) (h : name) : state :=
+  mkState (disk s) (db_add (db s) h false) (completed s) (cache s) (alive s) (save s).
 
 (* One blob download, as BlobDownloader.download_blob + BlobExchangeClientProtocol drive it:
    blob = get_blob(h, len); verified -> nothing to do; not blob.is_writeable() (a file is there) -> give up;
@@ -166,36 +180,40 @@ Definition blob_completed (s : state) (h : name) : state :=
    -> verified.set() (done-callback, runs even if the write raised) -> blob_completed. *)
 Definition complete (s : state) (h : name) (len : N) : state * result :=
   if negb (valid_name h) then (s, RInvalid) else
-  let '(d1, v, c1) := get_blob (disk s) (cache s) h len in
-  let s1 := mkState d1 (db s) (completed s) c1 (alive s) in
-  if v then (s1, RHave)
-  else if is_file d1 h then (s1, RBusy)
+  let '(d1, e, c1) := get_blob (save s) (disk s) (cache s) h len in
+  let s1 := mkState d1 (db s) (completed s) c1 (alive s) (save s) in
+  if snd e then (s1, RHave)
+  else if fst e && is_file d1 h then (s1, RBusy)              (* BlobFile.is_writeable() is false *)
   else if len =? 0 then (s1, RNoLength)
+  else if fst e then
+    let s2 := mkState (write_file d1 h len) (db s) (completed s) (set_key c1 h (true, true)) (alive s) (save s) in
+    (blob_completed s2 h, RDone)
   else
-    let s2 := mkState (write_file d1 h len) (db s) (completed s) (set_key c1 h true) (alive s) in
-    (blob_completed s2 h, RDone).
+    let s2 := mkState d1 (db s) (completed s) (set_key c1 h (false, true)) (alive s) (save s) in
+    (buffer_completed s2 h, RDone).
 
 (* a download that was started and never finished: only get_blob(h, len) *)
 Definition touch (s : state) (h : name) (len : N) : state * result :=
   if negb (valid_name h) then (s, RInvalid) else
-  let '(d1, v, c1) := get_blob (disk s) (cache s) h len in
-  (mkState d1 (db s) (completed s) c1 (alive s), if v then RHave else RDone).
+  let '(d1, e, c1) := get_blob (save s) (disk s) (cache s) h len in
+  (mkState d1 (db s) (completed s) c1 (alive s) (save s), if snd e then RHave else RDone).
 
 (* the same download, but the process dies when [written] bytes of the file are on disk and before the database
-   write (blob_completed may or may not have run: memory is lost either way) *)
+   write (blob_completed may or may not have run: memory is lost either way); a BlobBuffer leaves nothing *)
 Definition crash_write (s : state) (h : name) (len written : N) : state * result :=
   if negb (valid_name h) then (s, RInvalid) else
-  let '(d1, v, c1) := get_blob (disk s) (cache s) h len in
-  let s1 := mkState d1 (db s) (completed s) c1 (alive s) in
-  if v then (s1, RHave)
-  else if is_file d1 h then (s1, RBusy)
+  let '(d1, e, c1) := get_blob (save s) (disk s) (cache s) h len in
+  let s1 := mkState d1 (db s) (completed s) c1 (alive s) (save s) in
+  if snd e then (s1, RHave)
+  else if fst e && is_file d1 h then (s1, RBusy)
   else if len =? 0 then (s1, RNoLength)
-  else (mkState (write_file d1 h written) (db s) [] [] false, RDone).
+  else (mkState (if fst e then write_file d1 h written else d1) (db s) [] [] false (save s), RDone).
 
 (* BlobFile.create_from_unencrypted(..., blob_completed_callback=blob_manager.blob_completed) on a fresh hash:
    the BlobFile is NOT entered in BlobManager.blobs *)
 Definition create_blob (s : state) (hl : name * N) : state :=
-  blob_completed (mkState (write_file (disk s) (fst hl) (snd hl)) (db s) (completed s) (cache s) (alive s)) (fst hl).
+  blob_completed (mkState (write_file (disk s) (fst hl) (snd hl)) (db s) (completed s) (cache s) (alive s) (save s))
+                 (fst hl).
 
 Definition fresh (s : state) (h : name) : bool :=
   valid_name h && match lookup (disk s) h with None => true | Some _ => false end
@@ -213,9 +231,9 @@ Definition publish (s : state) (hs : list (name * N)) (sd : name * N) : state * 
   if negb (forallb (fun hl => fresh s (fst hl) && negb (snd hl =? 0)) all && all_distinct (map fst all))
   then (s, RPrecondition) else
   let s1 := fold_left create_blob all s in
-  let c2 := set_key (cache s1) (fst sd) true in                       (* get_blob(sd_hash): cache miss, file exists *)
+  let c2 := set_key (cache s1) (fst sd) (true, true) in               (* get_blob(sd_hash): cache miss, file exists *)
   let db2 := fold_left (fun acc hl => db_insert_ignore acc (fst hl) Pending) all (db s1) in
-  (mkState (disk s1) db2 (completed s1) c2 (alive s1), RDone).
+  (mkState (disk s1) db2 (completed s1) c2 (alive s1) (save s1), RDone).
 
 (* the same publish, but the process dies when the files of the first k hashes (of hs ++ [sd]) are written and
    only the first j of them (j <= k) have been recorded by storage.add_blobs *)
@@ -227,15 +245,16 @@ Definition publish_crash (s : state) (hs : list (name * N)) (sd : name * N) (k j
   let recorded := firstn (Nat.min j k) all in
   let d1 := fold_left (fun acc hl => write_file acc (fst hl) (snd hl)) written (disk s) in
   let db1 := fold_left (fun acc hl => db_add acc (fst hl) true) recorded (db s) in
-  (mkState d1 db1 [] [] false, RDone).
+  (mkState d1 db1 [] [] false (save s), RDone).
 
-(* BlobManager.delete_blob(h) for a valid h *)
+(* BlobManager.delete_blob(h) for a valid h.  A cached BlobBuffer is only dropped (AbstractBlob.delete touches no
+   file, even if one has appeared meanwhile). *)
 Definition delete_blob (s : state) (h : name) : state :=
   match lookup (cache s) h with
   | None => mkState (if is_file (disk s) h then remove_key (disk s) h else disk s)
-                    (db s) (completed s) (cache s) (alive s)
-  | Some _ => mkState (if is_file (disk s) h then remove_key (disk s) h else disk s)
-                      (db s) (set_remove h (completed s)) (remove_key (cache s) h) (alive s)
+                    (db s) (completed s) (cache s) (alive s) (save s)
+  | Some e => mkState (if fst e && is_file (disk s) h then remove_key (disk s) h else disk s)
+                      (db s) (set_remove h (completed s)) (remove_key (cache s) h) (alive s) (save s)
   end.
 
 (* the loop of BlobManager.delete_blobs: an invalid hash raises and aborts before the database is touched *)
@@ -251,14 +270,14 @@ Definition db_delete_all (db : db_t) (hs : list name) : db_t := fold_left db_del
 Definition delete_blobs (s : state) (hs : list name) (from_db : bool) : state * result :=
   let (s1, ok) := delete_loop s hs in
   if negb ok then (s1, RInvalid)
-  else if from_db then (mkState (disk s1) (db_delete_all (db s1) hs) (completed s1) (cache s1) (alive s1), RDone)
+  else if from_db then (mkState (disk s1) (db_delete_all (db s1) hs) (completed s1) (cache s1) (alive s1) (save s1), RDone)
   else (s1, RDone).
 
 (* StreamManager.delete: delete_blobs([sd] + hs, delete_from_db=False) then storage.delete_stream(descriptor) *)
 Definition stream_delete (s : state) (hs : list name) (sd : name) : state * result :=
   let (s1, ok) := delete_loop s (sd :: hs) in
   if negb ok then (s1, RInvalid)
-  else (mkState (disk s1) (db_delete_all (db s1) (hs ++ [sd])) (completed s1) (cache s1) (alive s1), RDone).
+  else (mkState (disk s1) (db_delete_all (db s1) (hs ++ [sd])) (completed s1) (cache s1) (alive s1) (save s1), RDone).
 
 Inductive op :=
 | OComplete (h : name) (len : N)
@@ -272,10 +291,11 @@ Inductive op :=
 | OExtDir (n : name)                      (* behind the daemon's back: create a directory (outside the property) *)
 | OExtRemove (n : name)                   (* behind the daemon's back: remove the entry *)
 | OExtDb (h : name) (st : option status)  (* state injection: force / drop a row (explores arbitrary pre-states) *)
-| ORestart.
+| ORestart
+| ORestartSave (b : bool).             (* restart with config.save_blobs = b *)
 
-Definition with_disk (s : state) (d : disk_t) : state := mkState d (db s) (completed s) (cache s) (alive s).
-Definition with_db (s : state) (b : db_t) : state := mkState (disk s) b (completed s) (cache s) (alive s).
+Definition with_disk (s : state) (d : disk_t) : state := mkState d (db s) (completed s) (cache s) (alive s) (save s).
+Definition with_db (s : state) (b : db_t) : state := mkState (disk s) b (completed s) (cache s) (alive s) (save s).
 
 Definition step (s : state) (o : op) : state * result :=
   match o with
@@ -285,6 +305,7 @@ Definition step (s : state) (o : op) : state * result :=
   | OExtDb h None => (with_db s (db_delete (db s) h), RDone)
   | OExtDb h (Some st) => (with_db s (db_update (db_insert_ignore (db s) h st) h st), RDone)
   | ORestart => (restart s, RDone)
+  | ORestartSave b => (restart_with s b, RDone)
   | _ =>
     if negb (alive s) then (s, RDead) else
     match o with
